@@ -544,7 +544,9 @@ func (rs *runState) runC16Layout(idx int, lay c16Layout) *violationT {
 	if lay.TestName != "" {
 		tn = lay.TestName
 	}
-	files[pkgDir+tn+"_co_test.go"] = coHeader(tsrc)
+	// a //go:debug directive (only legal in test files and main packages) sets a runtime default: panic(nil) recovers as nil
+	files[pkgDir+tn+"_co_test.go"] = "//go:build co\n\n//go:generate cogen\n\n//go:debug panicnil=1\n\n" + tsrc +
+		"\nfunc TestDebugDirective(t *testing.T) {\n\tdefer func() {\n\t\tif r := recover(); r != nil {\n\t\t\tt.Fatalf(\"recover() = %v: the //go:debug panicnil=1 directive of the source file is not in effect\", r)\n\t\t}\n\t}()\n\tpanic(nil)\n}\n"
 	expected[pkgDir+tn+"_test.go"] = true
 	switch lay.Unused {
 	case "blank-import":
